@@ -239,6 +239,30 @@ ok = ok and same('tree still filters', tree.filter(doc).result, ref_tree(T, doc)
 return ok
 """
     out.append(mk_case("c02.parts.bare_and_tree", [("t1", "int"), ("t2", "int"), ("x", U), ("y", "int")], body, pre=[f"BU({L}, t1, t2, x, y)"]))
+    # equal operands: the same object on both sides, a rebuilt equal operand, commuted equal
+    # sub-combinations, a spec list with a repeated entry (x ^ x rejects everything; x & x, x | x are x)
+    for op in OPS:
+        for op2 in OPS:
+            body = f"""
+TA, TB = V('greater_than', t1), V('equal_to', s1)
+doc = [x, y]
+p, q = build_cond(TA), build_cond(TB)
+same_obj = p {SYM[op]} p
+ok = same('x op x (same object)', same_obj.filter(doc).result, ref_tree(({op!r}, TA, TA), doc))
+rebuilt = build_cond(TA) {SYM[op]} build_cond(TA)
+ok = ok and same('x op x (rebuilt equal operand)', rebuilt.filter(doc).result, ref_tree(({op!r}, TA, TA), doc))
+inner1 = p {SYM[op2]} q
+inner2 = q {SYM[op2]} p
+outer = inner1 {SYM[op]} inner2
+ok = ok and same('(a op2 b) op (b op2 a)', outer.filter(doc).result, ref_tree(({op!r}, ({op2!r}, TA, TB), ({op2!r}, TB, TA)), doc))
+spec = {{{op!r}: [{{'value.greater_than': t1}}, {{'value.greater_than': t1}}, {{'value.equal_to': s1}}]}}
+ok = ok and same('spec list with a repeated entry', ConditionLike.from_spec(spec).filter(doc).result,
+                 ref_tree(({op!r}, ({op!r}, TA, TA), TB), doc))
+ok = ok and same('operands still filter as before', [p.filter(doc).result, q.filter(doc).result], [ref_tree(TA, doc), ref_tree(TB, doc)])
+return ok
+"""
+            out.append(mk_case(f"c02.equal_operands.{op}.{op2}", [("t1", "int"), ("s1", "int"), ("x", U), ("y", "int")], body,
+                               pre=[f"BU({L}, t1, s1, x, y)"]))
     # key-kind with index-kind must be refused (TypeError), in any nesting
     body = """
 raised = False
